@@ -440,6 +440,20 @@ def run(ctx):
     for c in cases:
         for o in c["ops"]:
             ops_hist[o[0]] = ops_hist.get(o[0], 0) + 1
+    coqchk = None
+    if not quick and coq.ok:
+        # independent re-check of the compiled proofs (and everything they depend on) + the axioms they rely on
+        import os
+        import subprocess
+        try:
+            p = subprocess.run(["coqchk", "-o", "-silent", "-Q", ".", "TK", "TK.Properties_C16"],
+                               cwd=os.path.join(ctx.verif, "coq"), capture_output=True, text=True, timeout=1500)
+            tail = (p.stdout + p.stderr)[-1500:]
+            coqchk = {"rc": p.returncode, "axioms_none": "* Axioms: <none>" in tail, "summary": tail[tail.find("CONTEXT SUMMARY"):]}
+            if p.returncode != 0:
+                ctx.unshown("coqchk rejects the compiled C16 development: " + tail[-400:])
+        except Exception as ex:  # a missing/slow coqchk is not a verdict
+            coqchk = {"error": str(ex)[:200]}
     ctx.finish(
         evaluations=n, distinct_nontrivial=len(distinct),
         rule="histories from corpus, random op mixes (ties via small key alphabets; out-of-range, stored and "
@@ -452,7 +466,7 @@ def run(ctx):
                    "exhaustive_small_alphabet": exhaustive},
         trusted_base=TRUSTED,
         assumptions=["keys are finite (no NaN)", "capacity >= 0 and fits in int"],
-        extra={"traces_validated_against_impl": len(cases)})
+        extra={"traces_validated_against_impl": len(cases), "coqchk": coqchk})
 
 
 def replay(ctx, case):
